@@ -246,7 +246,7 @@ def run_dep(dep, seed, choices=None, harvest=None, migration=False):
     status = "quiescent" if not w.pool.pending() and not pending else "budget"
     if w.pool.errors:
         status = "error"
-    if status == "quiescent" and migration and rng.random() < 0.4 and not check(w, status):
+    if status == "quiescent" and migration and rng.random() < 0.6 and not check(w, status):
         if migrate(w, rng):
             status = "quiescent" if not w.pool.pending() else "budget"
             if w.pool.errors:
@@ -280,11 +280,21 @@ def migrate(w, rng):
         leave.append(lambda c=c: w.disc[O].unregister_computation(c, O))
     leave.append(lambda: w.disc[O].unregister_agent(O))
     ops.append(("leave", O, leave))
-    for c in [c["name"] for c in dep["comps"] if c["agent"] == O]:
+    mine = [c["name"] for c in dep["comps"] if c["agent"] == O]
+    forced = {}
+    if len(mine) == 2 and rng.random() < 0.6:
+        # the two computations of the departing agent share a replica holder: that holder activates one of them (its free
+        # capacity drops) while the other one goes to another holder, which will ask it again for a replica
+        c1, c2 = rng.sample(mine, 2)
+        common = [h for h in final.get(c1, []) if h in final.get(c2, []) and h != O]
+        others = [h for h in final.get(c2, []) if h != O and h not in common]
+        if common and others:
+            forced = {c1: rng.choice(common), c2: rng.choice(others)}
+    for c in mine:
         holders = [h for h in final.get(c, []) if h != O]
         if not holders:
             continue
-        N = rng.choice(holders)
+        N = forced.get(c) or rng.choice(holders)
         w.migrated[c] = N
 
         def activate(c=c, N=N):
@@ -326,6 +336,9 @@ def migrate(w, rng):
     leave_op = ops.pop(0)
     rng.shuffle(setups)
     rng.shuffle(ops)
+    if rng.random() < 0.5:
+        # the losing candidates finish last (their repair computation ends after the winners have asked for replicas again)
+        ops.sort(key=lambda o_: o_[0] == "drop")
     # setups first, then the ends of the repair computations; the departing agent's own steps keep their order and start at
     # a random point; everything is interleaved with deliveries
     flat = list(setups)
@@ -575,7 +588,7 @@ def main(chk, tier, seed):
     chk.assumptions = ["symmetric routes with one global default route (what the DCOP format guarantees)",
                        "bounded progress: 400 x #agents x #computations scheduler steps",
                        "k in the rule = the level passed to replicate(); an agent may be stricter"]
-    n = 1500 if tier == "quick" else 64000
+    n = 2400 if tier == "quick" else 64000
     common.run_chunked(chk, "c25", n, nchunks=16 if tier == "quick" else 64, job_extra={"nsched": 2 if tier == "quick" else 3, "thread_runs": 1 if tier == "quick" else 3}, timeout=3000)
     chk.inconclusive_if(chk.counters.get("accept_replica_calls_checked", 0) < 500, "too few replica acceptances observed")
     chk.inconclusive_if(chk.counters.get("accepts_while_holding_several", 0) < 50, "acceptance rule hardly exercised with several held replicas")
